@@ -26,7 +26,7 @@ def run_check(patch, prop):
     return c.returncode, kinds
 
 seeds = []
-for rnd, base in (("", inc), ("r2", os.path.join(inc, "r2")), ("r3", os.path.join(inc, "r3")), ("r4", os.path.join(inc, "r4")), ("r5", os.path.join(inc, "r5")), ("r6", os.path.join(inc, "r6")), ("r7", os.path.join(inc, "r7")), ("r8", os.path.join(inc, "r8")), ("r9", os.path.join(inc, "r9")), ("r10", os.path.join(inc, "r10")), ("r11", os.path.join(inc, "r11"))):
+for rnd, base in (("", inc), ("r2", os.path.join(inc, "r2")), ("r3", os.path.join(inc, "r3")), ("r4", os.path.join(inc, "r4")), ("r5", os.path.join(inc, "r5")), ("r6", os.path.join(inc, "r6")), ("r7", os.path.join(inc, "r7")), ("r8", os.path.join(inc, "r8")), ("r9", os.path.join(inc, "r9")), ("r10", os.path.join(inc, "r10")), ("r11", os.path.join(inc, "r11")), ("r12", os.path.join(inc, "r12"))):
     if not os.path.isdir(base):
         continue
     for prop in sorted(os.listdir(base)):
@@ -36,7 +36,7 @@ for rnd, base in (("", inc), ("r2", os.path.join(inc, "r2")), ("r3", os.path.joi
         for mut in sorted(os.listdir(d)):
             if mut.startswith("mut"):
                 seeds.append((prop, mut, rnd, os.path.join(d, mut)))
-for rnd in ("r2", "r3", "r4", "r5", "r6", "r7", "r8", "r9", "r10", "r11"):
+for rnd in ("r2", "r3", "r4", "r5", "r6", "r7", "r8", "r9", "r10", "r11", "r12"):
     lp = os.path.join(inc, "verify_%s.log" % rnd)
     for l in (open(lp) if os.path.exists(lp) else []):
         m = re.match(r"(C\d+/mut\d): demo_before=(\d+) demo_after=(\d+) suite=(\w+)", l)
